@@ -1436,7 +1436,17 @@ impl<R: Read> Base64Decoder<R> {
         }
         while self.buffer_size + 3 <= self.buffer.len() {
             let mut input = [0u8; 4];
-            let size = self.read.read(&mut input)?;
+            // reader is allowed to return less then requested, keep reading until
+            // we have a full group or reached the end of the input
+            let mut size = 0;
+            while size < input.len() {
+                match self.read.read(&mut input[size..]) {
+                    Ok(0) => break,
+                    Ok(read) => size += read,
+                    Err(error) if error.kind() == std::io::ErrorKind::Interrupted => continue,
+                    Err(error) => return Err(error),
+                }
+            }
             if size == 0 {
                 break;
             } else if size != 4 {
